@@ -424,21 +424,7 @@ def campaign(ctx, ks):
 
 # ------------------------------------------------------------------ the refuted edges, replayed on the implementation
 def edges(ctx, ks, full):
-    # (1) below the threshold the timeout is ignored: 40 lines, Fibonacci-many paths, timeout 1 s
-    spec = {"isa": "x86", "arch": "zen2", "text": lcd_par.gen_fib_x86(40)}
     limit = 1 + OVERHEAD + 7
-    t0 = time.time()
-    res = c16.run_batches(ctx, [[{"spec": spec, "timeout": 1, "want_paths": False, "report": False}]], timeout=limit, jobs=1)[0][0]
-    dt = time.time() - t0
-    ctx.count()
-    rp = {"kind": "sequential-untimed", "spec": spec, "timeout": 1, "limit": limit}
-    if "error" in res and "driver died or timed out" in res["error"]:
-        ctx.violation(K_SEQ, "40-line kernel (vaddpd chain reading the two previous results), --lcd-timeout 1: the search was still running after %.0f s "
-                      "(sequential branch for < 50 lines never looks at the timeout); the same chain padded to 50 lines returns in time" % dt, rp)
-    elif "error" in res:
-        ctx.obligation("sequential edge run", "harness", False, res.get("trace", res["error"]))
-    else:
-        ctx.log("sequential edge: 40-line dense kernel returned after %.1fs, timed_out=%s (edge not observed)" % (res["wall"], res["timed_out"]))
     # (1b) a dense kernel of EXACTLY the threshold length must take the timed (parallel) branch and return in time
     from osaca.semantics import KernelDG
     thr = int(KernelDG.INSTRUCTION_THRESHOLD)
@@ -494,6 +480,295 @@ def edges(ctx, ks, full):
             ctx.log("flag edge not observed: T=%s flag=%s kills=%d complete=%s" % (j["timeout"], r["timed_out"], len(kills), r["lcd"] == full.get(name)))
 
 
+# ------------------------------------------------------------------ the sequential branch (kernels below the threshold)
+def run_seq(ctx, batches, timeout=240, jobs=4):
+    """c16.run_batches with harness/c19_seq.py as the driver (one driver process per batch)"""
+    old = c16.DRIVER
+    c16.DRIVER = SEQ_DRIVER
+    try:
+        return c16.run_batches(ctx, batches, timeout=timeout, jobs=jobs)
+    finally:
+        c16.DRIVER = old
+
+
+SEQ_PRELUDE = """From Coq Require Import ZArith List Bool String.
+From OV Require Import Model.PyString Model.Parallel Model.Timeout.
+Import ListNotations.
+Open Scope Z_scope.
+Fixpoint nl_eqb (a b : list nat) : bool :=
+  match a, b with [], [] => true | x :: a', y :: b' => Nat.eqb x y && nl_eqb a' b' | _, _ => false end.
+(* one run: the model on the recorded readings and an enumeration of N paths (named 0..N-1) must give the flag,
+   the number of readings made after start_time, and the delivered list = the first k names *)
+Definition seq_case (rule : seq_rule) (readings : list Z) (T : Z) (N k : nat) (flag : bool) (nread : nat) : bool :=
+  let clk := fun i : nat => nth i readings (last readings 0 + 1000000000) in
+  let o := run_sequential rule clk T (seq 0 N) in
+  Bool.eqb (s_flag o) flag && nl_eqb (s_result o) (seq 0 k) &&
+  Nat.eqb nread (match rule with
+                 | SeqIgnoresTimeout => 0%nat
+                 | SeqDeadlinePerPath => if T =? -1 then 0%nat else if s_flag o then s_exit o else (s_exit o - 1)%nat
+                 end) &&
+  negb (match s_how o with SeqOutOfFuel => true | _ => false end).
+"""
+
+
+def seq_small_kernels(ctx):
+    """short kernels whose complete enumeration is small enough for networkx's unrestricted search (the reference)"""
+    rng = ctx.rng
+    out = {}
+    out["fib10/8"] = {"isa": "x86", "arch": "zen2", "text": lcd_par.gen_fib_x86(10, pool=8)}
+    out["fib13/9"] = {"isa": "x86", "arch": "zen2", "text": lcd_par.gen_fib_x86(13, pool=9)}
+    for g in range(ctx.n(2, 6)):
+        n = rng.choice([11, 12, 13, 14])
+        seed = rng.randrange(10 ** 9)
+        out["chain%d-s%d" % (n, seed)] = {"isa": "x86", "arch": "zen2",
+                                          "text": lcd_par.gen_chain_x86(_random.Random(seed), n, rng.randrange(3, n - 2), pool=rng.choice([5, 7, n - 2]))}
+    for g in range(ctx.n(2, 6)):
+        n = rng.choice([10, 12, 14])
+        seed = rng.randrange(10 ** 9)
+        out["rand%d-s%d" % (n, seed)] = {"isa": "x86", "arch": "zen2", "text": lcd_par.gen_x86(_random.Random(seed), n, rng.choice([3, 4, 6]), 0.7)}
+        seed = rng.randrange(10 ** 9)
+        out["a64rand%d-s%d" % (n, seed)] = {"isa": "aarch64", "arch": "tx2", "text": lcd_par.gen_a64(_random.Random(seed), n, rng.choice([3, 4, 6]), 0.7)}
+    out["kernel_x86.s"] = {"isa": "x86", "arch": "zen2", "text": c16.kernel_lines(os.path.join(vlib.REPO, "tests/test_files/kernel_x86.s"), "x86", False)}
+    out["kernel_aarch64.s"] = {"isa": "aarch64", "arch": "tx2", "text": c16.kernel_lines(os.path.join(vlib.REPO, "tests/test_files/kernel_aarch64.s"), "aarch64", False)}
+    return out
+
+
+def check_seq_run(ctx, name, spec, job, r, ref):
+    """Oracles of the property on one run of the sequential branch.  ref = the untimed run of the same kernel
+    (complete dictionary, TP, CP) or None.  Returns False if the run is unusable."""
+    T = job["timeout"]
+    rp = {"kind": "seq", "name": name, "spec": spec, "job": {k: v for k, v in job.items() if k != "spec"}}
+    ctx.count()
+    if "error" in r:
+        ctx.violation("timed-search-raises", "%s (sequential) timeout=%s: %s" % (name, T, r["error"]), rp)
+        return False
+    repaired = RULE["seq"] == "SeqDeadlinePerPath"
+    yielded = sum(g[3] for g in r["gens"])
+    dropped = yielded - r["n_delivered"]
+    exhausted = all(g[4] for g in r["gens"])
+    cut = dropped > 0 or not exhausted
+    if cut or r["n_delivered"] >= 2:
+        ctx.nontriv((name, T, json.dumps(job.get("clock"))))
+    if r["children_after"]:
+        ctx.violation("worker-left-behind", "%s (sequential) timeout=%s: children in /proc afterwards: %s" % (name, T, r["children_after"][:4]), rp)
+    if not r["dag"]:
+        ctx.obligation("dependency graph of %s is acyclic" % name, "harness", False, "the step bound of the restricted search relies on it")
+    if dropped not in (0, 1):
+        ctx.violation("sequential-search-drops-paths", "%s timeout=%s: the generators yielded %d paths, %d reached the post-processing" % (name, T, yielded, r["n_delivered"]), rp)
+    # flag <=> cut
+    if cut and not r["timed_out"]:
+        ctx.violation("cut-without-flag", "%s (sequential, %d lines) timeout=%s: the search stopped early (%d yielded, %d kept, generators exhausted: %s) "
+                      "but timed_out is not set" % (name, r["klen"], T, yielded, r["n_delivered"], exhausted), rp)
+    if r["timed_out"] and not cut:
+        ctx.violation("flag-without-cut-sequential", "%s (sequential) timeout=%s: timed_out set although all %d yielded paths were kept and every generator ran to its end"
+                      % (name, T, yielded), rp)
+    if T == -1 and (r["timed_out"] or cut):
+        ctx.violation("untimed-run-cut", "%s (sequential) timeout=-1: timed_out=%s cut=%s" % (name, r["timed_out"], cut), rp)
+    if "report_has_warning" in r and r["report_has_warning"] != r["timed_out"]:
+        ctx.violation("warning-differs-from-flag", "%s (sequential) timeout=%s: footer warning %s, timed_out %s" % (name, T, r["report_has_warning"], r["timed_out"]), rp)
+    # the delivered list is a prefix of the unrestricted enumeration, in networkx's order
+    if r.get("is_prefix") is False:
+        ctx.violation("sequential-result-not-prefix", "%s timeout=%s: delivered path %s is %s, the unrestricted enumeration has %s there"
+                      % ((name, T) + tuple(r["first_diff"])), rp)
+    if r.get("ref_is_nx") is False:
+        ctx.obligation("reference enumeration of harness/c19_seq.py = networkx all_simple_paths on the unrestricted graph (%s)" % name, "harness", False, "")
+    if "ref_total" in r and not r.get("ref_capped") and (r["n_delivered"] < r["ref_total"]) != r["timed_out"]:
+        ctx.violation("cut-without-flag" if not r["timed_out"] else "flag-without-cut-sequential",
+                      "%s (sequential) timeout=%s: %d of %d paths delivered, timed_out=%s" % (name, T, r["n_delivered"], r["ref_total"], r["timed_out"]), rp)
+    # time: real clock only
+    if repaired and not job.get("clock") and T is not None and T >= 0:
+        if r["search_us"] is not None and r["search_us"] > T * 1e6 + STEP_US:
+            ctx.violation(K_STEP, "%s (%d lines) timeout=%s s: the sequential search was left %.2f s after its start (longest distance of two clock readings %.2f s): "
+                          "a generator step ran that long without yielding" % (name, r["klen"], T, r["search_us"] / 1e6, r["max_gap_us"] / 1e6), rp)
+        bound = T + OVERHEAD + PER_PATH * r["n_delivered"]
+        if r["wall"] > bound:
+            ctx.violation("timeout-overrun", "%s (%d lines, sequential) timeout=%s s: returned after %.2f s (> timeout + %.1f s + %.1f ms/path x %d paths)"
+                          % (name, r["klen"], T, r["wall"], OVERHEAD, PER_PATH * 1000, r["n_delivered"]), rp)
+    # every reported entry is a genuine cycle of the graph with the right latencies (independent of any reference run)
+    edges = {(a, b): float.fromhex(l) for a, b, l in r["edges"]}
+    if all(isinstance(a, int) and isinstance(b, int) for a, b in edges):
+        for e in r["lcd"]:
+            why = c19_seq.genuine_cycle(e, edges, r["offset"])
+            if why:
+                ctx.violation("reported-lcd-not-a-cycle", "%s (sequential) timeout=%s: entry %s: %s" % (name, T, e[0], why), rp)
+                break
+    if ref is not None:
+        fm = entry_map(ref["lcd"])
+        wrong = [e for e in r["lcd"] if fm.get(e[0]) != e]
+        if wrong:
+            ctx.violation("partial-result-not-subset", "%s (sequential) timeout=%s: %d reported LCDs are not entries of the untimed result; first %s vs %s"
+                          % (name, T, len(wrong), wrong[0], fm.get(wrong[0][0])), rp)
+        if not r["timed_out"] and r["lcd"] != ref["lcd"]:
+            ctx.violation("unflagged-result-incomplete", "%s (sequential) timeout=%s: no flag but %d entries instead of %d" % (name, T, len(r["lcd"]), len(ref["lcd"])), rp)
+        if "tp" in r and "tp" in ref and (r.get("tp"), r.get("cp")) != (ref.get("tp"), ref.get("cp")):
+            ctx.violation("tp-cp-changed-by-timeout", "%s (sequential) timeout=%s: TP/CP %s differ from the untimed run %s"
+                          % (name, T, (r.get("tp"), r.get("cp")), (ref.get("tp"), ref.get("cp"))), rp)
+    return True
+
+
+def seq_model_case(r, T):
+    """Coq term: Model.Timeout.run_sequential under the rule of the source reproduces this run"""
+    T_us = -1 if T == -1 else int(round(T * 10 ** 6))
+    reads = r["readings"] if r["readings"] else [0]
+    return "seq_case %s [%s] (%d) %d %d %s %d" % (RULE["seq"], "; ".join(str(x) for x in reads), T_us, r["ref_total"], r["n_delivered"],
+                                                   "true" if r["timed_out"] else "false", max(0, r["n_readings"] - 1))
+
+
+def seq_small(ctx):
+    """Tie of the sequential state machine + oracles, on kernels whose complete enumeration is known."""
+    ks = seq_small_kernels(ctx)
+    names = list(ks)
+    t0 = time.time()
+    first = run_seq(ctx, [[{"spec": ks[n], "timeout": -1, "want": "small", "report": True}] for n in names], timeout=200, jobs=8)
+    refs = {}
+    for n, res in zip(names, first):
+        r = res[0]
+        job = {"timeout": -1, "want": "small", "report": True}
+        if "error" in r:
+            if "driver died" in r["error"]:
+                ctx.log("small sequential kernel %s: untimed reference not finished in 200 s, skipped" % n)
+            else:
+                ctx.obligation("untimed sequential reference of %s" % n, "harness", False, r.get("trace", r["error"]))
+            continue
+        if check_seq_run(ctx, n, ks[n], job, r, None) and not r["timed_out"] and r["ref_total"] <= 3000:
+            refs[n] = r
+    # synthetic clocks: reading i = start + i * d microseconds; the cut lands on path k = first i with i * d > T
+    rng = ctx.rng
+    plan = []
+    for n in refs:
+        N = refs[n]["ref_total"]
+        cuts = sorted({1, 2, N, N + 1, max(1, N // 2), rng.randrange(1, N + 3), rng.randrange(1, N + 3)})[:ctx.n(5, 7)]
+        for k in cuts:
+            T = rng.choice([1, 2, 1, 0.5])
+            d = int(T * 10 ** 6 // k) + 1
+            plan.append((n, {"timeout": T, "clock": {"synthetic_us": d}, "want": "small", "report": True}))
+        plan.append((n, {"timeout": 0, "clock": {"synthetic_us": 1}, "want": "small", "report": True}))       # cut at the first path
+        plan.append((n, {"timeout": 0, "clock": {"synthetic_us": 0}, "want": "small", "report": True}))       # clock stands still: 0 > 0 is false
+        plan.append((n, {"timeout": 12, "clock": {"synthetic_us": 3}, "want": "small", "report": True}))      # generous
+        plan.append((n, {"timeout": -1, "clock": {"synthetic_us": 10 ** 6}, "want": "small", "report": True}))
+    by = {}
+    for n, j in plan:
+        by.setdefault(n, []).append(j)
+    res = run_seq(ctx, [[dict(j, spec=ks[n]) for j in js] for n, js in by.items()], timeout=240, jobs=8)
+    cases, meta, shards, smeta = [], [], [], []
+    hist = {}
+    for (n, js), rs in zip(by.items(), res):
+        for j, r in zip(js, rs):
+            if not check_seq_run(ctx, n, ks[n], j, r, refs[n]):
+                continue
+            key = "%s" % ("cut" if r["timed_out"] else "complete")
+            hist[key] = hist.get(key, 0) + 1
+            ctx.sample({"kernel": n, "lines": r["klen"], "branch": "sequential", "timeout": j["timeout"], "clock_us_per_reading": j["clock"]["synthetic_us"],
+                        "timed_out": r["timed_out"], "paths_delivered": r["n_delivered"], "paths_total": r["ref_total"], "lcds": len(r["lcd"])}, limit=16)
+            cases.append(seq_model_case(r, j["timeout"]))
+            meta.append((n, j))
+            if r.get("lat_exact") and (r["timed_out"] or j["timeout"] == -1) and len(shards) < ctx.n(10, 30):
+                body = lcd_par.COQ_PRELUDE
+                body += "Definition ps : list path := %s.\n" % lcd_par.coq_paths(r["paths"])
+                body += "Definition expected : list entry := %s.\n" % lcd_par.coq_expected(r["lcd"])
+                body += "Definition allp : list path := %s.\n" % lcd_par.coq_paths(r["all_paths"])
+                body += "Definition fulld : list entry := %s.\n" % lcd_par.coq_expected(refs[n]["lcd"])
+                checks = ["agrees %d ps expected" % r["offset"], "key_injb %d allp" % r["offset"],
+                          "forallb (fun p => existsb (fun q => eqb_of cmp_lp p q) allp) ps",
+                          "forallb (fun e => existsb (entry_eqb e) fulld) expected"]
+                body += 'Definition show := String.concat "" (map (fun b : bool => if b then "1" else "0") [%s]).\n' % "; ".join(checks)
+                body += "Eval vm_compute in show.\n"
+                shards.append(("corr_c19_seqpost_%d" % len(shards), body))
+                smeta.append((n, j))
+    ctx.coverage["sequential_small"] = {"kernels": {n: refs[n]["ref_total"] for n in refs}, "runs_by_outcome": hist, "rule": RULE["seq"]}
+    ctx.log("sequential branch: %d small kernels, %d synthetic-clock runs in %.1fs (%s)" % (len(refs), len(cases), time.time() - t0, hist))
+    if cases:
+        body = SEQ_PRELUDE + "Definition res : list bool := [\n %s ].\n" % ";\n ".join(cases)
+        body += 'Definition show := String.concat "" (map (fun b : bool => if b then "1" else "0") res).\nEval vm_compute in show.\n'
+        ok, out, dt = ctx.coq_eval("corr_c19_sequential", body, timeout=600)
+        good = ok and out and out[0] == "1" * len(cases)
+        detail = "" if good else (out[0][-1500:] if not ok else "disagreeing runs: %s" % [(meta[i][0], meta[i][1]["timeout"], meta[i][1]["clock"]) for i, c in enumerate(out[0]) if c != "1"][:10])
+        ctx.obligation("correspondence: Model.Timeout.run_sequential %s on the recorded clock readings reproduces timed_out, the number of readings and "
+                       "the delivered list (= that prefix of networkx's unrestricted enumeration) (%d runs)" % (RULE["seq"], len(cases)), "correspondence", good, detail)
+        ctx.log("sequential correspondence on %d runs: %s (%.1fs)" % (len(cases), "agree" if good else "DISAGREE", dt))
+    if shards:
+        outs = ctx.coq_eval_many(shards, timeout=600, jobs=8)
+        bad = []
+        for (n, j), (ok, strs) in zip(smeta, outs):
+            if not ok or not strs:
+                bad.append("%s T=%s: coqc failed %s" % (n, j["timeout"], (strs[0] if strs else "")[-300:]))
+            elif strs[0] != "1111":
+                bad.append("%s T=%s: [post=returned dict, key_inj(all), delivered subset of all, entries subset of full] = %s" % (n, j["timeout"], strs[0]))
+        ctx.obligation("correspondence (sequential): Coq post(delivered prefix) = returned dictionary; hypothesis and conclusion of sequential_result_sound "
+                       "hold on the data (%d runs)" % len(shards), "correspondence", not bad, "\n".join(bad))
+
+
+def seq_real(ctx):
+    """The sequential branch in real time."""
+    repaired = RULE["seq"] == "SeqDeadlinePerPath"
+    rng = ctx.rng
+    limit = 1 + OVERHEAD + 7
+    fib40 = {"isa": "x86", "arch": "zen2", "text": lcd_par.gen_fib_x86(40)}
+    if not repaired:
+        # the code as shipped: the 40-line witness of the known finding
+        t0 = time.time()
+        res = run_seq(ctx, [[{"spec": fib40, "timeout": 1, "want": "none"}]], timeout=limit, jobs=1)[0][0]
+        dt = time.time() - t0
+        ctx.count()
+        rp = {"kind": "seq", "name": "fib40", "spec": fib40, "job": {"timeout": 1, "want": "none"}, "limit": limit}
+        if "error" in res and "driver died or timed out" in res["error"]:
+            ctx.violation(K_SEQ, "40-line kernel (vaddpd chain reading the two previous results), --lcd-timeout 1: the search was still running after %.0f s "
+                          "(sequential branch for < 50 lines never looks at the timeout); the same chain padded to 50 lines returns in time" % dt, rp)
+        elif "error" in res:
+            ctx.obligation("sequential edge run", "harness", False, res.get("trace", res["error"]))
+        else:
+            ctx.log("sequential edge: 40-line dense kernel returned after %.1fs, timed_out=%s (edge not observed)" % (res["wall"], res["timed_out"]))
+        return
+    # the repaired code: dense kernels of 20-49 lines, timeout 1 s
+    big = {"fib40": fib40,
+           "fib49": {"isa": "x86", "arch": "zen2", "text": lcd_par.gen_fib_x86(49)},
+           "deadend40": {"isa": "x86", "arch": "zen2", "text": c19_seq.gen_deadend_x86(40)}}
+    n = rng.choice([30, 36, 44, 48])
+    seed = rng.randrange(10 ** 9)
+    big["chain%d-s%d" % (n, seed)] = {"isa": "x86", "arch": "zen2", "text": lcd_par.gen_chain_x86(_random.Random(seed), n, n - 4, pool=rng.choice([9, 14]))}
+    for g in range(ctx.n(1, 4)):
+        n = rng.choice([20, 26, 33, 41, 49])
+        seed = rng.randrange(10 ** 9)
+        big["rand%d-s%d" % (n, seed)] = {"isa": "x86", "arch": "zen2", "text": lcd_par.gen_x86(_random.Random(seed), n, rng.choice([3, 4, 5]), 0.8)}
+    plan = [(k, {"timeout": 1, "want": "none", "report": True}) for k in big]
+    if ctx.tier == "thorough":
+        plan += [("fib49", {"timeout": 2, "want": "none", "report": True}), ("fib40", {"timeout": 0, "want": "none", "report": True})]
+    # a smaller instance with a complete reference: cut in real time, generous, untimed
+    med = {"fib20": {"isa": "x86", "arch": "zen2", "text": lcd_par.gen_fib_x86(20)},
+           "fib17/9": {"isa": "x86", "arch": "zen2", "text": lcd_par.gen_fib_x86(17, pool=9)}}
+    big.update(med)
+    for k in med:
+        plan.append((k, {"timeout": -1, "want": "medium", "report": True, "role": "ref"}))
+        for T in [0.02, 0.05, 0.1, 12, 0]:
+            plan.append((k, {"timeout": T, "want": "medium", "report": True}))
+    t0 = time.time()
+    res = run_seq(ctx, [[dict(j, spec=big[k])] for k, j in plan], timeout=limit + 20, jobs=4)
+    ctx.log("sequential branch in real time: %d runs in %.1fs" % (len(plan), time.time() - t0))
+    refs = {}
+    for (k, j), rs in zip(plan, res):
+        if j.get("role") == "ref" and "error" not in rs[0]:
+            refs[k] = rs[0]
+    hist = {}
+    for (k, j), rs in zip(plan, res):
+        r = rs[0]
+        rp = {"kind": "seq", "name": k, "spec": big[k], "job": j, "limit": limit + 20}
+        if "error" in r and "driver died or timed out" in r["error"]:
+            ctx.count()
+            ctx.violation(K_STEP, "%s (%d lines), --lcd-timeout %s: the repaired sequential search was still running after %.0f s: a step of the path generator "
+                          "runs that long without yielding a path" % (k, len(big[k]["text"].strip().split("\n")), j["timeout"], limit + 20), rp)
+            continue
+        if not check_seq_run(ctx, k, big[k], j, r, refs.get(k)):
+            continue
+        key = "T=%s %s" % (j["timeout"], "cut" if r["timed_out"] else "complete")
+        hist[key] = hist.get(key, 0) + 1
+        ctx.sample({"kernel": k, "lines": r["klen"], "branch": "sequential", "timeout": j["timeout"], "wall_s": round(r["wall"], 2),
+                    "search_s": None if r["search_us"] is None else round(r["search_us"] / 1e6, 3), "longest_step_s": round(r["max_gap_us"] / 1e6, 4),
+                    "timed_out": r["timed_out"], "paths_delivered": r["n_delivered"], "lcds": len(r["lcd"])}, limit=30)
+        if j["timeout"] == 1 and k.startswith("fib4") and not r["timed_out"]:
+            ctx.obligation("the dense kernel %s does not finish within 1 s (the run exercises the cut)" % k, "harness", False, "it returned complete after %.2f s" % r["wall"])
+    ctx.coverage["sequential_real_time"] = hist
+
+
 # ------------------------------------------------------------------ CLI: the warning follows the flag
 def cli(ctx, ks, cases=None):
     c16.setup_home_data(ctx)
@@ -528,6 +803,10 @@ def run(ctx):
                     "Model/Parallel.v post (see C16)",
                     "runtime residue (observed, not proved): wall-clock bounds, SIGKILL delivery and reaping, atomicity of ListProxy.extend "
                     "when the sender is killed, /proc as the process table"]
+    ctx.trusted += ["Model/Timeout.v run_sequential: hand-written state machine of the sequential loop, tied by replaying runs with a synthetic clock "
+                    "against networkx's unrestricted enumeration; Deps.paths as the model of all_simple_paths (C05) for restricted_search_same_paths"]
+    ctx.assumptions += ["sequential branch: StepsWithin (every resumption of the path generator takes at most dmax) is not proved; the longest distance of two "
+                        "clock readings is measured on every real-time run and must stay below %.1f s" % (STEP_US / 1e6)]
     ctx.assumptions += ["is_alive() observed at the instant of the preceding clock reading (the model has one timestamp per poll)",
                         "key_inj (no two different latency paths over the same lines) -- decided on every complete path list of the run",
                         "overhead bound used by the wall-time oracle: %.1f s + %.1f ms per delivered path" % (OVERHEAD, PER_PATH * 1000)]
@@ -539,13 +818,29 @@ def run(ctx):
                    "translation", rule is not None,
                    "" if rule else "self.timed_out = True is neither the branch's own statement nor inside `if p.is_alive():` of the kill loop")
     RULE["v"] = rule or "FlagOnExhaustion"
+    srule = seq_rule_in_source()
+    ctx.coverage["seq_rule_in_source"] = srule
+    ctx.obligation("the sequential branch (kernels below the threshold) is recognised in the current source (SeqIgnoresTimeout / SeqDeadlinePerPath)",
+                   "translation", srule is not None,
+                   "" if srule else "neither `all_paths.extend(generator)` without any reference to the timeout, nor one loop `if <deadline test>: "
+                   "self.timed_out = True; break` + `all_paths.append(path)`")
+    RULE["seq"] = srule or "SeqIgnoresTimeout"
+    ctx.log("sequential rule in source: %s (theorems that apply: %s)" % (srule, "sequential_result_is_prefix, sequential_flag_iff_cut, "
+            "sequential_time_bounded, sequential_complete_when_*" if srule == "SeqDeadlinePerPath" else "sequential_shipped_ignores_clock; "
+            "sequential_untimed_refuted is observable"))
     ctx.log("flag rule in source: %s (theorems that apply: %s)" % (rule, "flag_iff_some_worker_killed, no_flag_means_complete, "
             "every_worker_finished_no_flag" if rule == "FlagOnKill" else "flag_iff_loop_exhausted; flag_without_cut_*_refuted are observable"))
     ks = kernels(ctx)
     ctx.coverage["kernels"] = {n: len(s["text"].strip().split("\n")) for n, s in ks.items()}
     full = campaign(ctx, ks)
+    seq_small(ctx)
+    seq_real(ctx)
     edges(ctx, ks, full)
-    cli(ctx, ks)
+    cases = [("long_LCD", 1, True), ("gs+pad52", 10, False), ("gs+pad52", -1, False)]
+    if RULE["seq"] == "SeqDeadlinePerPath":     # the CLI on the sequential branch: cut -> warning, in time -> none
+        ks = dict(ks, fib40={"isa": "x86", "arch": "zen2", "text": lcd_par.gen_fib_x86(40)}, fib20={"isa": "x86", "arch": "zen2", "text": lcd_par.gen_fib_x86(20)})
+        cases += [("fib40", 1, True), ("fib20", 10, False)]
+    cli(ctx, ks, cases)
 
 
 def replay(ctx, obj):
@@ -560,6 +855,23 @@ def replay(ctx, obj):
         return
     if r.get("kind") == "cli":
         cli(ctx, {r["name"]: r["spec"]}, [(r["name"], r["timeout"], r["expect_warning"])])
+        return
+    if r.get("kind") == "seq":
+        RULE["seq"] = seq_rule_in_source() or "SeqIgnoresTimeout"
+        job = dict(r["job"])
+        job.pop("role", None)
+        ref = None
+        if job.get("want") in ("small", "medium"):
+            ref = run_seq(ctx, [[{"spec": r["spec"], "timeout": -1, "want": "none", "report": True}]], timeout=120, jobs=1)[0][0]
+            ref = None if "error" in ref else ref
+        t0 = time.time()
+        res = run_seq(ctx, [[dict(job, spec=r["spec"])]], timeout=r.get("limit", 120), jobs=1)[0][0]
+        ctx.log("replay (sequential): %.1fs, %s" % (time.time() - t0, res.get("error", "returned, timed_out=%s wall=%s" % (res.get("timed_out"), res.get("wall")))))
+        if "error" in res and "driver died or timed out" in res["error"]:
+            ctx.count()
+            ctx.violation(obj["key"], obj["what"], r)
+            return
+        check_seq_run(ctx, r.get("name", "replay"), r["spec"], job, res, ref)
         return
     spec, job = r["spec"], dict(r["job"])
     full = None
